@@ -290,6 +290,9 @@ class Select(MarkerRelation):
         removed_projection : `bool`
             Whether a `Projection` operation was also stripped.
         """
+        if self.is_compound:
+            # A chain can only appear in a FROM clause as a subquery.
+            return self, False
         if not self.has_deduplication and not self.has_sort and not self.has_slice:
             return self.skip_to, self.has_projection
         else:
